@@ -409,9 +409,6 @@ func (m *Model) Apply(c *APICall, closeOverlap bool) ApplyResult {
 		i := m.bySpelling(p)
 		if i < 0 {
 			if c.Ret >= 0 && c.Class != "ErrNonExistentWatch" {
-				if closeOverlap && c.Class != "" {
-					return ApplyResult{OK: true, Relax: "error-overlapping-close"}
-				}
 				return bad("Remove(%q) of an unlisted path returned %q, want ErrNonExistentWatch", c.Path, c.Err)
 			}
 			return okRes()
@@ -433,8 +430,6 @@ func (m *Model) Apply(c *APICall, closeOverlap bool) ApplyResult {
 			switch {
 			case c.Class == "EINVAL" && nat:
 				res.Relax = "remove-einval-kernel-watch-already-gone"
-			case closeOverlap:
-				res.Relax = "error-overlapping-close"
 			default:
 				return bad("Remove(%q) of a listed path failed: %s", c.Path, c.Err)
 			}
@@ -453,9 +448,6 @@ func (m *Model) Apply(c *APICall, closeOverlap bool) ApplyResult {
 	case OpAdd:
 		if m.Closed {
 			if c.Ret >= 0 && c.Class != "ErrClosed" {
-				if closeOverlap {
-					return ApplyResult{OK: true, Relax: "result-overlapping-close"}
-				}
 				return bad("Add after Close returned %q, want ErrClosed", c.Err)
 			}
 			return okRes()
@@ -500,7 +492,7 @@ func (m *Model) applyAdd(c *APICall, closeOverlap bool) ApplyResult {
 	if c.Ret >= 0 && c.Class != "" {
 		// failed Add: must leave the set untouched; legitimate if the path did
 		// not resolve (before or after), a fault was injected, or Close overlaps
-		if !forced && !naturalFail && c.ResErrBefore == "" && c.InoAfter != 0 && !closeOverlap {
+		if !forced && !naturalFail && c.ResErrBefore == "" && c.InoAfter != 0 {
 			if c.Rec && !c.DirBefore {
 				return okRes()
 			}
